@@ -385,6 +385,10 @@ func resolvePathToFieldDescriptors(
 		part := remaining
 		if i := strings.IndexByte(remaining, '.'); i >= 0 {
 			part, remaining = remaining[:i], remaining[i+1:]
+			if remaining == "" {
+				return nil, fmt.Errorf("%w in field path %q: path ends with a separator",
+					errUnknownField, path)
+			}
 		} else {
 			remaining = ""
 		}
